@@ -120,6 +120,14 @@ var items = []pluginItem{
 	{yaml: "server_id: LL 00:de:ad:be:ef:00", name: "server_id", args: []string{"LL", "00:de:ad:be:ef:00"}},
 	{yaml: "range: leases.sqlite 10.0.0.1 10.0.0.9 60s", name: "range", args: []string{"leases.sqlite", "10.0.0.1", "10.0.0.9", "60s"}},
 	{yaml: "lease_time: 3600s", name: "lease_time", args: []string{"3600s"}},
+	// characters that mean something to shells or other configuration languages mean nothing
+	// here: arguments are the whitespace-separated fields of the decoded value
+	{yaml: `nbp: '"a b" c'`, name: "nbp", args: []string{`"a`, `b"`, "c"}},
+	{yaml: `searchdomains: "'x y' z"`, name: "searchdomains", args: []string{"'x", "y'", "z"}},
+	{yaml: `netmask: 'a "" b'`, name: "netmask", args: []string{"a", `""`, "b"}},
+	{yaml: `ipv6only: '"quoted"'`, name: "ipv6only", args: []string{`"quoted"`}},
+	{yaml: `autoconfigure: 'a\ b x=1 #y a,b;c'`, name: "autoconfigure", args: []string{`a\`, "b", "x=1", "#y", "a,b;c"}},
+	{yaml: `staticroute: "p\tq\nr"`, name: "staticroute", args: []string{"p", "q", "r"}},
 	{yaml: "a: 1\n      b: 2", reject: true},
 	{yaml: "{a: 1, b: 2}", reject: true},
 	{yaml: "dns", skip: true},
